@@ -22,6 +22,7 @@ def sortStrs (l : List String) : List String := l.mergeSort (fun a b => decide (
 
 def showRes : Res → String
   | .ok => "ok" | .exists_ => "ex" | .notFound => "nf" | .invalid => "inv"
+  | .parentNotFound => "pnf" | .wrongType => "nd" | .cycle => "cyc"
 
 /-- `<t>.<rest>` → (tenant, rest) -/
 def splitTenant (s : String) : Option (Nat × String) :=
@@ -114,6 +115,103 @@ def alias (ops : List String) : String :=
       | op :: r => let (st1, o) := Alias.step st op; go st1 r (aliasTok o :: acc)
     String.intercalate " " (go Alias.init ops [])
 
+/-! ### dash (dashboards + folders): ids are decimal numbers, 0 = root folder, n = the n-th object created by the line
+     c<t>.<name>=<payload>[@<pid>]  create dashboard      f<t>.<name>[@<pid>]        create folder
+     u<t>.<id>=<name>:<payload>[@<pid>]  update dashboard (move when @)   r<t>.<id>><name>[@<pid>]  rename/move folder (name "" = keep)
+     d<t>.<id> delete dashboard   x<t>.<id> delete folder   g<t>.<id> get dashboard   k<t>.<id> folder contents
+     l<t> list all items          v<t>.<id> toggle favorite                R -/
+def dec? (s : String) : Option Nat :=
+  if s.isEmpty || s.length > 6 || !s.all (fun c => '0' ≤ c && c ≤ '9') then none else s.toNat?
+
+/-- `body[@pid]` -/
+def splitAt? (s : String) : Option (String × Option Nat) :=
+  match s.splitOn "@" with
+  | [a] => some (a, none)
+  | [a, p] => (dec? p).map (fun p => (a, some p))
+  | _ => none
+
+def dashOp? (s : String) : Option Dash.Op :=
+  if s = "R" then some .restart else
+  match s.toList with
+  | 'l' :: c :: [] => (tenant? c).map .list
+  | o :: r =>
+    match splitTenant (String.ofList r) with
+    | none => none
+    | some (t, rest) =>
+      if o = 'c' then
+        match splitAt? rest with
+        | some (body, pid) => match split1 body '=' with
+          | some (k, v) => match key? k, isHexLower v with
+            | some k, true => some (.createDash t k v (pid.getD 0))
+            | _, _ => none
+          | none => none
+        | none => none
+      else if o = 'f' then
+        match splitAt? rest with
+        | some (body, pid) => (key? body).map (fun k => .createFolder t k (pid.getD 0))
+        | none => none
+      else if o = 'u' then
+        match splitAt? rest with
+        | some (body, pid) => match split1 body '=' with
+          | some (id, nv) => match dec? id, split1 nv ':' with
+            | some id, some (k, v) => match key? k, isHexLower v with
+              | some k, true => if id = 0 then none else some (.updateDash t id k v pid)
+              | _, _ => none
+            | _, _ => none
+          | none => none
+        | none => none
+      else if o = 'r' then
+        match splitAt? rest with
+        | some (body, pid) => match split1 body '>' with
+          | some (id, k) => match dec? id, key? k with
+            | some id, some k => some (.updateFolder t id (if k = [] then none else some k) pid)
+            | _, _ => none
+          | none => none
+        | none => none
+      else
+        match dec? rest with
+        | none => none
+        | some id =>
+          if o = 'd' then some (.deleteDash t id)
+          else if o = 'x' then some (.deleteFolder t id)
+          else if o = 'g' then some (.getDash t id)
+          else if o = 'k' then some (.contents t id)
+          else if o = 'v' then some (.favorite t id)
+          else none
+  | [] => none
+
+def showTy : Dash.Ty → String
+  | .folder => "F" | .dash => "D"
+
+def showIds (l : List Nat) : String := String.intercalate "." (l.map toString)
+
+def dashTok : Dash.Out → String
+  | .res r => showRes r
+  | .created id => s!"ok:{id}"
+  | .dash d => s!"{showKey d.name}:{d.payload}:{d.fid}:{showKey d.fname}:{showKey d.path}:{showIds d.crumbs}:{if d.fav then 1 else 0}"
+  | .folder name ty kids crumbs =>
+    showKey name ++ "/" ++ showTy ty ++ "[" ++ String.intercalate "," (kids.map (fun (c : Nat × Key × Dash.Ty × Nat) =>
+      s!"{c.1}/{showKey c.2.1}/{showTy c.2.2.1}/{c.2.2.2}")) ++ "]^" ++ showIds crumbs
+  | .rows l => "[" ++ String.intercalate "," (sortStrs (l.map (fun r =>
+      s!"{r.id}/{showKey r.name}/{showTy r.ty}/{match r.parent with | some p => toString p | none => "-"}/{showKey r.parentName}/{showKey r.fullPath}/{if r.fav then 1 else 0}/{r.payload}"))) ++ "]"
+  | .fav b => if b then "1" else "0"
+  | .restarted => "R"
+
+def dash (ops : List String) : String :=
+  match ops.mapM dashOp? with
+  | none => "bad-op"
+  | some ops =>
+    let rec go (st : Dash.St) (ops : List Dash.Op) (acc : List String) : List String :=
+      match ops with
+      | [] => acc.reverse
+      | op :: r =>
+        let (st1, o) := Dash.step st op
+        -- the harness reads every tenant back after every op (listItems → getDashboard of every item,
+        -- which refreshes stale folder metadata): part of the protocol, mirrored here
+        let st2 := [0, 1, 2].foldl (fun s t => (Dash.step s (.list t)).1) st1
+        go st2 r (dashTok o :: acc)
+    String.intercalate " " (go Dash.init ops [])
+
 def handle (cmd : String) (args : List String) : Option String :=
   match cmd, args with
   | "kv", store :: ops =>
@@ -121,6 +219,7 @@ def handle (cmd : String) (args : List String) : Option String :=
     match store with
     | "usq" => some (usq ops)
     | "alias" => some (alias ops)
+    | "dash" => some (dash ops)
     | _ => some "bad-op"
   | "kv", [] => some "bad-op"
   | _, _ => none
